@@ -274,6 +274,7 @@ pub fn extract_tls_signature_from_client_hello(
     let mut signature_algorithms = Vec::new();
     let mut elliptic_curves = Vec::new();
     let mut elliptic_curve_point_formats = Vec::new();
+    let mut supported_versions: Vec<u16> = Vec::new();
 
     // Parse extensions if present - if not present, we still generate JA4 with empty extension fields
     if let Some(ext_data) = &client_hello.ext {
@@ -307,6 +308,9 @@ pub fn extract_tls_signature_from_client_hello(
                         TlsExtension::EcPointFormats(formats) => {
                             elliptic_curve_point_formats = formats.to_vec();
                         }
+                        TlsExtension::SupportedVersions(versions) => {
+                            supported_versions = versions.iter().map(|v| v.0).collect();
+                        }
                         _ => {}
                     }
                 }
@@ -317,7 +321,17 @@ pub fn extract_tls_signature_from_client_hello(
         }
     }
 
-    let version = determine_tls_version(&client_hello.version, &extensions);
+    // JA4: the highest non-GREASE entry of supported_versions when the extension lists one,
+    // otherwise the legacy version of the ClientHello.
+    let highest_supported = supported_versions
+        .iter()
+        .filter(|v| !TLS_GREASE_VALUES.contains(v))
+        .max()
+        .copied();
+    let version = match highest_supported {
+        Some(code) => determine_tls_version(&tls_parser::TlsVersion(code), &[]),
+        None => determine_tls_version(&client_hello.version, &[]),
+    };
 
     Ok(Signature {
         version,
